@@ -45,7 +45,7 @@ inductive Msg
   | chanRequest (id : Nat) (name : Bytes) (want : Bool) (data : Bytes)
   | chanSuccess (id : Nat)
   | chanFailure (id : Nat)
-  | authSuccess                         -- type 52: decode returns it without reading the payload
+  | authSuccess                         -- type 52: accepted only as a one-byte packet
   | ping (data : Bytes)
 deriving DecidableEq, Repr
 
@@ -133,7 +133,7 @@ def decodeBody (t : Nat) (b : Bytes) : Except DErr Msg :=
     match rdU32 b with
     | none => .error .parse
     | some (id, r) => done (.chanFailure id) r
-  else if t = 52 then .ok .authSuccess
+  else if t = 52 then done .authSuccess b   -- decode rejects trailing bytes after SSH_MSG_USERAUTH_SUCCESS (repo commit 5ae9b7b)
   else if t ∈ [1, 5, 6, 7, 20, 30, 31, 50, 51, 53, 60, 61, 64, 65, 66] then .error .unmodelled
   else .error .unexpected
 
